@@ -18,6 +18,9 @@ import (
 // EnforceUTF8 reports whether to enforce strict UTF-8 validation.
 func EnforceUTF8(fd protoreflect.FieldDescriptor) bool {
 	if flags.ProtoLegacy || fd.Syntax() == protoreflect.Editions {
+		if xtd, ok := fd.(protoreflect.ExtensionTypeDescriptor); ok {
+			fd = xtd.Descriptor()
+		}
 		if fd, ok := fd.(interface{ EnforceUTF8() bool }); ok {
 			return fd.EnforceUTF8()
 		}
